@@ -331,3 +331,21 @@ contract('gnpy.core.elements.Edfa.propagate', props=['C04', 'C01', 'C02', 'C05']
          modifies=_IP_MOD + ['spectral_info._pch', 'spectral_info._signal_ratio', 'spectral_info._ase_ratio',
                              'spectral_info._nli_ratio', 'spectral_info._pmd', 'spectral_info._pdl',
                              ('self.pch_out_dbm', vec_len('NCH(spectral_info)')), 'self.propagated_labels'])
+
+# ---------------------------------------------------------------- one equalisation policy per ROADM, checked where the
+# parameters are loaded: a target of 0 (dBm, or a zero density) is a target
+_RP_BASE = {'add_drop_osnr': real(), 'pmd': real(), 'pdl': real(), 'restrictions': dct(), 'roadm-path-impairments': const([])}
+contract('gnpy.core.parameters.RoadmParams.__init__', props=['C06'],
+         params={'self': obj('RoadmParams'),
+                 'kwargs': dct_k({'target_pch_out_db': opt(real()), 'target_psd_out_mWperGHz': opt(real()),
+                                  'target_out_mWperSlotWidth': opt(real()), **_RP_BASE})},
+         kwargs_call='kwargs',
+         let={'a': "kwargs['target_pch_out_db'] is not None", 'b': "kwargs['target_psd_out_mWperGHz'] is not None",
+              'c': "kwargs['target_out_mWperSlotWidth'] is not None"},
+         raises={'ParametersError': '(a and b) or (a and c) or (b and c)'},
+         ensures=[('targets_stored_as_given', "(self.target_pch_out_db is None) == (not a) and (self.target_psd_out_mWperGHz is None) == (not b) and "
+                                              "(self.target_out_mWperSlotWidth is None) == (not c) and "
+                                              "implies(a, self.target_pch_out_db == kwargs['target_pch_out_db']) and "
+                                              "implies(b, self.target_psd_out_mWperGHz == kwargs['target_psd_out_mWperGHz']) and "
+                                              "implies(c, self.target_out_mWperSlotWidth == kwargs['target_out_mWperSlotWidth'])")],
+         modifies=['self.*'], use_at_calls=False)
